@@ -188,13 +188,13 @@ def rlnStep (st : St) (w : List String) : St × String :=
             (st, if decide (CircuitSat 20 wi) then "ok " ++ showBytes (Spec.encPv (specProofValues pe.H wi)) else "err")
           | _ => (st, "err")
         else (st, out (generateRlnProof Z Pv pe.H pe.h2f 20 pf bs) (fun m => "ok " ++ showBytes m))
-      else if op == "prove_wit" || op == "prove_raw" then
+      else if op == "prove_wit" || op == "prove_raw" || op == "prove_ext" then
         if spec then
           match Spec.decWitness bs with
           | some wi => (st, if decide (CircuitSat 20 wi) then
-              (if op == "prove_wit" then "ok " ++ showBytes (Spec.encPv (specProofValues pe.H wi)) else "ok -") else "err")
+              (if op == "prove_raw" then "ok -" else "ok " ++ showBytes (Spec.encPv (specProofValues pe.H wi))) else "err")
           | none => (st, "err")
-        else if op == "prove_wit" then (st, out (generateRlnProofWithWitness Z Pv pe.H 20 bs) (fun m => "ok " ++ showBytes m))
+        else if op == "prove_wit" || op == "prove_ext" then (st, out (generateRlnProofWithWitness Z Pv pe.H 20 bs) (fun m => "ok " ++ showBytes m))
         else (st, out (Public.prove Z Pv 20 bs) (fun m => "ok " ++ showBytes m))
       else if op == "witness_req" then
         if spec then
